@@ -1516,6 +1516,14 @@ func (f *Frame) atCallAsserts(cc *ssa.CallCommon, in ssa.Instruction, display st
 			f.assume(t)
 			continue
 		}
+		if ac.Cover {
+			lbl := ac.Clause.Label
+			if lbl == "" {
+				lbl = fmt.Sprintf("cover.%s.%d", ac.Callee, i+1)
+			}
+			f.addCover(ac.Clause.Prop, lbl, ac.Clause.Src, "at "+full, sAnd(f.cur.R, t))
+			continue
+		}
 		lbl := ac.Clause.Label
 		if lbl == "" {
 			lbl = fmt.Sprintf("at.%s.%d", ac.Callee, i+1)
